@@ -67,6 +67,27 @@ def c18_names(table="a/b", field="select"):
     return {"violates": not ok, "detail": f"rows {rows!r} read back {back!r}"}
 
 
+def c18_rowid_column(field="rowid"):
+    from flow.record import RecordDescriptor, RecordReader, RecordWriter
+
+    rows = [(None, "a"), (0, "b"), (7, "c"), (7, "d"), (-1, "e"), (3, "f")]
+    D = RecordDescriptor("c18/ids", [("varint", field), ("string", "s")])
+    with tempfile.TemporaryDirectory() as td:
+        p = os.path.join(td, "a.sqlite")
+        w = RecordWriter("sqlite://" + p)
+        for v, s in rows:
+            w.write(D(**{field: v, "s": s}))
+        w.close()
+        bad = None
+        for bs in (1000, 2, 1):
+            with RecordReader(f"sqlite://{p}?batch_size={bs}") as rd:
+                back = [(getattr(r, field), r.s) for r in rd]
+            if back != rows:
+                bad = f"rows written {rows}, read back {back} (reader batch size {bs})"
+                break
+    return {"violates": bool(bad), "detail": bad}
+
+
 def c18_evolve(sessions=1):
     from flow.record import RecordDescriptor, RecordWriter
 
@@ -204,4 +225,4 @@ def c18_sweep(seed=0, n=60):
     return {"violates": False, "cases": cases}
 
 
-CALLS = {"c18_row": c18_row, "c18_names": c18_names, "c18_evolve": c18_evolve, "c18_batches": c18_batches, "c18_sweep": c18_sweep}
+CALLS = {"c18_rowid_column": c18_rowid_column, "c18_row": c18_row, "c18_names": c18_names, "c18_evolve": c18_evolve, "c18_batches": c18_batches, "c18_sweep": c18_sweep}
